@@ -32,6 +32,7 @@ import (
 	"github.com/moov-io/ach"
 	"github.com/moov-io/ach/server"
 
+	"verifharness/internal/gen"
 	"verifharness/internal/hx"
 	"verifharness/internal/rng"
 )
@@ -291,6 +292,35 @@ func srvcorr(args []string) {
 		if len(samples) < 4 && c%401 == 7 {
 			samples = append(samples, map[string]any{"store": init, "requests": strings.Join(toks, " ")})
 		}
+	}
+	// the constructions, by the regenerated tables: NewBatch + AddBatch for every SEC code the generator knows,
+	// IAT, unknown codes and odd spellings, singly and in random sequences
+	allSecs := append(append([]string{}, gen.AllSECs()...), ach.IAT, ach.ADV, "ZZZ", "", "adv", "ADV ", "PPD ")
+	kcase := func(ks []string) {
+		f := ach.NewFile()
+		hs := make([]string, len(ks))
+		for i, sec := range ks {
+			hs[i] = hx.Enc(sec)
+			bh := ach.NewBatchHeader()
+			bh.StandardEntryClassCode = sec
+			bh.BatchNumber = i + 1
+			if b, err := ach.NewBatch(bh); err == nil {
+				f.AddBatch(b)
+			}
+		}
+		cases.Printf("K %s\n", strings.Join(hs, ","))
+		impl.Printf("%s\n", project(f))
+		dist["constructions"]++
+	}
+	for _, sec := range allSecs {
+		kcase([]string{sec})
+	}
+	for i := 0; i < 200; i++ {
+		ks := make([]string, r.Range(1, 6))
+		for k := range ks {
+			ks[k] = rng.Pick(r, allSecs)
+		}
+		kcase(ks)
 	}
 	sum := summary{Kind: "summary", Evaluations: requests, Distinct: len(distinct), Dist: dist, Samples: samples,
 		Rule: "validate requests (Service.ValidateFile, a third through the HTTP route GET/POST /files/{id}/validate) on stores of 1-3 real files, interleaved with library operations on the stored pointers; the projection of every stored file (batch headers / controls, stored ValidateOpts) after each request is compared with the extracted store model, a reflective deep dump of every stored file is compared around each request; distinct by (store, request history)"}
